@@ -439,6 +439,33 @@ def _safe_function_names(p, mito):
 def _derivation(m, e, params, seen=None):
     """None if e derives from a parameter by identity / .strip() only; else a description of the rewriting"""
     seen = set() if seen is None else seen
+    if isinstance(e, ast.Attribute) and isinstance(e.value, ast.Name):
+        # a field of a value object built in this function: `req = _Request(expression=expression, …)` … `req.expression`
+        defs = [n for n in walk_no_nested(m.node) if isinstance(n, ast.Assign) and any(isinstance(t, ast.Name) and t.id == e.value.id for t in n.targets)]
+        cands, opaque = [], False
+        for d in defs:
+            c = d.value
+            if not isinstance(c, ast.Call):
+                opaque = True
+                continue
+            kw = [k.value for k in c.keywords if k.arg == e.attr]
+            is_replace = isinstance(c.func, ast.Attribute) and c.func.attr in ("_replace",) and isinstance(c.func.value, ast.Name) and c.func.value.id == e.value.id
+            is_dc_replace = (dotted(c.func) or "").split(".")[-1] == "replace" and c.args and isinstance(c.args[0], ast.Name) and c.args[0].id == e.value.id
+            if kw:
+                cands.extend(kw)
+            elif is_replace or is_dc_replace:
+                continue            # the field is carried over unchanged
+            else:
+                opaque = True
+        if defs and not opaque and cands:
+            for v in cands:
+                w = _derivation(m, v, params, seen)
+                if w:
+                    return w
+            return None
+        if e.value.id in params:
+            # a field of a value object received as a parameter: judged at the construction site by the caller's check
+            return None
     if isinstance(e, ast.Name):
         defs = [n for n in walk_no_nested(m.node) if isinstance(n, ast.Assign) and any(isinstance(t, ast.Name) and t.id == e.id for t in n.targets)]
         todo = [d for d in defs if id(d) not in seen]
